@@ -233,7 +233,8 @@ def collect(lines, rnd, tier):
                 if not (m2.is_num(x) and x > 0 and p["status"] == 0 and m2.is_num(p["p"]) and m2.is_num(p["q"])):
                     continue
                 info = dict(a=a, x=x, point=pi)
-                if a.denominator == 1 and a <= 300 and x.denominator <= (1 << 40) and x >= Fraction(1, 1 << 30):
+                # (Coq-Interval does not finish 1 - exp(-x) * poly(x) for x = 1e10 within the limits: far tail by reference)
+                if a.denominator == 1 and a <= 300 and x.denominator <= (1 << 40) and Fraction(1, 1 << 30) <= x <= 10 ** 7:
                     cert.append(("gammaP", ci, info, p["p"]))
                     cert.append(("gammaQ", ci, info, p["q"]))
                 else:
